@@ -1,13 +1,16 @@
 #!/bin/sh
-# usage: try_seed.sh <patch file> <check id>...   : apply the patch to /repo, run the checks, undo.
+# usage: try_seed.sh <patch file> <check id>...   : apply the patch to /repo, run the checks (quick tier), undo.
+# Runs the checks of the /verif copy this script lives in (so a scratch copy of /verif can be used while /verif is edited).
+root=$(cd "$(dirname "$0")/.." && pwd)
 patch=$1; shift
 cd /repo && git status --short | grep -q . && { echo "/repo not clean"; exit 2; }
 git -C /repo apply $patch || { echo "patch does not apply"; exit 2; }
-cd /verif
+cd $root
+mkdir -p .cache/try
 for id in "$@"; do
-  ./check $id > /tmp/try_$id.log 2>&1; rc=$?
-  echo "$id exit=$rc violations=$(grep -c '^VIOLATION' /tmp/try_$id.log) $(grep '^VIOLATION' /tmp/try_$id.log | head -1)"
-  grep "^C.. tier" /tmp/try_$id.log | cut -c1-1200
+  ./check $id > .cache/try/$id.log 2>&1; rc=$?
+  echo "$id exit=$rc violations=$(grep -c '^VIOLATION' .cache/try/$id.log) $(grep '^VIOLATION' .cache/try/$id.log | head -1)"
+  grep "^C.. tier\|CHECK ERROR" .cache/try/$id.log | cut -c1-1200
 done
 git -C /repo checkout -- .
 git -C /repo status --short
